@@ -2486,7 +2486,8 @@ def main(
     if constants_inputs:
         for key, value in constants_inputs.items():
             if "_head_start" in key:
-                df_animal_stock_info.loc[country_code, key.strip("_start")] = value
+                # drop the "_start" suffix (str.strip would also eat leading/trailing s, t, a, r, _ characters)
+                df_animal_stock_info.loc[country_code, key[: -len("_start")]] = value
 
     # read animal nutrition data
     df_animal_attributes = AnimalDataReader.read_animal_nutrition_data(attributes_csv)
